@@ -119,6 +119,7 @@ func allProps() []PropSpec {
 			Harnesses: []HarnessSpec{
 				{Func: "ZZ_C06_H1", Pkg: "pkg/route", Quick: map[string]int{"N": 5}, Thorough: map[string]int{"N": 8}, Covers: []string{"reached-assert", "matched-with-param", "no-match"}},
 				{Func: "ZZ_C06_H2", Pkg: "pkg/route", Quick: map[string]int{"R": 2, "N": 3}, Thorough: map[string]int{"R": 3, "N": 3}, Covers: []string{"reached-assert", "matched"}, Note: "two routes with symbolic bytes over {a b / : * p}: tree shapes chosen by the solver; both registration orders"},
+				{Func: "ZZ_C06_H3", Pkg: "pkg/route", Quick: map[string]int{"N": 5}, Thorough: map[string]int{"N": 7}, Covers: []string{"reached-assert", "matched-with-param", "raw-path-with-escape"}, Note: "through Engine.ServeHTTP: symbolic request path over {a b / % 4 1 + x u}; default options and UseRawPath+UnescapePathValues; three route sets with backtracking"},
 			},
 			Assumptions: []string{"route sets: the 12-set catalogue in harness/pkg/route/c06.go, each in every registration order; request paths: '/' + every byte string up to N bytes", "lookup is the real router.find (raw-path unescaping, case-insensitive/trailing-slash redirects are outside)", "reference matcher implements the documented priority rule (DESIGN.md Appendix C)"},
 		},
